@@ -32,6 +32,7 @@ type N struct {
 	M0                     Missing // by-type point that no component can satisfy
 	rt                     *RT
 	Idx                    int
+	lookups                []string // names looked up through the container inside Init
 }
 
 func (n *N) ID() string        { return n.Nm }
@@ -43,7 +44,41 @@ func (n *N) AfterPropertiesSet() error {
 }
 func (n *N) Init() error {
 	n.rt.Event("init:" + n.Nm)
+	for _, t := range n.lookups {
+		// programmatic lookup while this component is still being created
+		if n.rt.App != nil {
+			_, err := n.rt.App.GetComponentByName(t)
+			n.rt.Event(fmt.Sprintf("lookup:%s->%s:err=%v", n.Nm, t, err != nil))
+			if err != nil {
+				// an ordinary program does not swallow the failure of something it needs
+				return err
+			}
+		}
+	}
 	return n.rt.Fault("init:" + n.Nm)
+}
+
+// ProcNode is a user post-processor that is itself an ordinary component with injection points
+// (declared with ordinary static tags): it must be populated and initialised like any other.
+type ProcNode struct {
+	processors.DefaultComponentPostProcessor
+	Dep Iface  `wire:"a"`
+	V0  string `value:"${cfg.a}"`
+	rt  *RT
+}
+
+func (p *ProcNode) Naming() string { return "zz-procnode" }
+func (p *ProcNode) AfterPropertiesSet() error {
+	p.rt.Event(fmt.Sprintf("aps:zz-procnode:dep=%v:v0=%s", p.Dep != nil, p.V0))
+	return nil
+}
+func (p *ProcNode) Init() error {
+	dep := "-"
+	if b := NodeOf(p.Dep); b != nil {
+		dep = b.Nm
+	}
+	p.rt.Event(fmt.Sprintf("init:zz-procnode:dep=%s:v0=%s", dep, p.V0))
+	return nil
 }
 
 // NZ is a lazily initialised node (the container tests LazyInit by type assertion). It embeds N
@@ -290,21 +325,23 @@ const (
 
 // GraphProg is a dependency-graph program (pure data).
 type GraphProg struct {
-	N       int     `json:"n"`
-	Edges   [][]int `json:"edges"` // Edges[i][j]: kind of the injection point of i that targets j
-	Lazy    []bool  `json:"lazy,omitempty"`
-	Wrap    []int   `json:"wrap,omitempty"`
-	Obs     int     `json:"observers,omitempty"`
-	Reg     []int   `json:"reg,omitempty"`  // registration order (default 0..n-1)
-	Base    []int   `json:"base,omitempty"` // base iteration order of the user names
-	Mode    int     `json:"mode,omitempty"`
-	Faults  bool    `json:"faults,omitempty"`
-	Kinds   string  `json:"kinds,omitempty"`
-	Choices []int   `json:"choices,omitempty"`
-	Family  string  `json:"family,omitempty"`
-	Config  bool    `json:"config,omitempty"` // bind slot V0 of every node from configuration (value tag)
-	Full    bool    `json:"full,omitempty"`   // add two loaders, two runners, a scanner and a factory post-processor (fault sites)
-	Extra   []Extra `json:"extra,omitempty"`  // additional unsatisfiable points
+	N          int     `json:"n"`
+	Edges      [][]int `json:"edges"` // Edges[i][j]: kind of the injection point of i that targets j
+	Lazy       []bool  `json:"lazy,omitempty"`
+	Wrap       []int   `json:"wrap,omitempty"`
+	Obs        int     `json:"observers,omitempty"`
+	Reg        []int   `json:"reg,omitempty"`  // registration order (default 0..n-1)
+	Base       []int   `json:"base,omitempty"` // base iteration order of the user names
+	Mode       int     `json:"mode,omitempty"`
+	Faults     bool    `json:"faults,omitempty"`
+	Kinds      string  `json:"kinds,omitempty"`
+	Choices    []int   `json:"choices,omitempty"`
+	Family     string  `json:"family,omitempty"`
+	Config     bool    `json:"config,omitempty"`      // bind slot V0 of every node from configuration (value tag)
+	Full       bool    `json:"full,omitempty"`        // add two loaders, two runners, a scanner and a factory post-processor (fault sites)
+	Extra      []Extra `json:"extra,omitempty"`       // additional unsatisfiable points
+	ProcNode   bool    `json:"procnode,omitempty"`    // add a post-processor that has injection points of its own
+	InitLookup [][]int `json:"init_lookup,omitempty"` // [i, j]: node i looks node j up by name inside its Init
 	// Attach builds additional harness components that need the execution's runtime.
 	Attach func(rt *RT) []any `json:"-"`
 }
@@ -530,6 +567,9 @@ func RunGraph(p *GraphProg, ch *envx.Chooser) *GraphObs {
 			o.Comps = append(o.Comps, n)
 		}
 	}
+	for _, l := range p.InitLookup {
+		o.Nodes[l[0]].lookups = append(o.Nodes[l[0]].lookups, Name(l[1], p.N))
+	}
 	rt.User = userPred(names)
 	if p.Base != nil {
 		for _, i := range p.Base {
@@ -547,6 +587,9 @@ func RunGraph(p *GraphProg, ch *envx.Chooser) *GraphObs {
 	comps = append(comps, NewTagScanner(tags))
 	if p.Attach != nil {
 		comps = append(comps, p.Attach(rt)...)
+	}
+	if p.ProcNode {
+		comps = append(comps, &ProcNode{rt: rt})
 	}
 	var opts []app.SettingOption
 	if p.Config {
@@ -607,6 +650,7 @@ func RunGraph(p *GraphProg, ch *envx.Chooser) *GraphObs {
 	o.Trace = NewTraceSCR(p.N+12+nproc+2, 400*(p.N+edges)+4000)
 	s := app.NewApp()
 	o.App = s
+	rt.App = s
 	rt.Install()
 	vsync.Begin()
 	o.Panic = Protect(func() {
